@@ -26,7 +26,7 @@ func isCallTo(t *Term, fn *ssa.Function) bool {
 }
 
 func isExtOfCallNamed(t *Term, idx int, name string) (*Term, bool) {
-	if t != nil && t.Op == "ext" && t.Name == fmt.Sprint(idx) && t.Args[0].Op == "call" && t.Args[0].Fn != nil && t.Args[0].Fn.Name() == name {
+	if t != nil && t.Op == "ext" && t.Name == fmt.Sprint(idx) && t.Args[0].Op == "call" && t.Args[0].Fn != nil && strings.TrimSuffix(strings.TrimSuffix(t.Args[0].Fn.Name(), "$thunk"), "$bound") == name {
 		return t.Args[0], true
 	}
 	return nil, false
